@@ -59,8 +59,8 @@ ASSUMPTIONS = [
     "content['other'] (when not null) gives the object the route does NOT address other required roles: for unit routes the finished run was stored while the unit required `other`; for run routes the unit (and the offline unit) require `other` now - the decision must follow the addressed object",
 ]
 TIERS = {
-    "quick": {"roles": "ABC", "contents_per_shard": 1, "exhaustive": True, "budget_s": 170},
-    "thorough": {"roles": "ABCD", "contents_per_shard": 5, "exhaustive": True, "budget_s": 850},
+    "quick": {"roles": "ABC", "fixed_contents": 2, "drawn_contents": 0, "exhaustive": True, "budget_s": 170},
+    "thorough": {"roles": "ABCD", "fixed_contents": 3, "drawn_contents": 2, "exhaustive": True, "budget_s": 850},
 }
 ROLES = ("A", "B", "C", "D")          # quick uses {A,B,C}; thorough all four (256 combinations per route)
 
@@ -449,11 +449,11 @@ def _run_case(h, case):
                 raise HarnessError("twin world has another unit id")
             leaking = [name for name in sorted(res["parts"]) if res["parts"][name] != twin["parts"].get(name)]
             if leaking:
-                name = leaking[0]
+                name = "hover-tag-value" if "hover-tag-value" in leaking else leaking[0]     # the live tag value is the most telling part
                 out.append(Violation("leak:" + key, "user roles %r, %s requires %r: the answer of %s depends on the data of the unit/run%s - "
                                      "world a: %s | world b (data replaced): %s"
                                      % (user, "run" if run_scope else "unit", required, key,
-                                        "" if leaking == ["body"] else " (differing parts: %s; first shown)" % ", ".join(leaking),
+                                        "" if leaking == ["body"] else " (differing parts: %s; shown: %s)" % (", ".join(leaking), name),
                                         *_excerpt(res["parts"][name], str(twin["parts"].get(name)))), case))
         else:
             classes.append("unauthorised-refused")
@@ -489,6 +489,16 @@ def contents(draw):
             "other": draw(st.one_of(st.none(), st.sampled_from(role_sets("ABC"))))}
 
 
+# every shard runs its cells with these contents first: the richest world with equal roles on unit and run; the addressed
+# object restricted while the other one is open; the other one restricted to all roles (reached with required == [])
+FIXED_CONTENTS = [
+    {"k": 7, "n_lines": 2, "n_errors": 1, "n_runlog": 2, "run": True, "running": True, "archive": True, "str_tag": True, "other": None},
+    {"k": 311, "n_lines": 1, "n_errors": 0, "n_runlog": 1, "run": True, "running": False, "archive": False, "str_tag": False, "other": []},
+    {"k": 42, "n_lines": 3, "n_errors": 2, "n_runlog": 1, "run": False, "running": False, "archive": True, "str_tag": True,
+     "other": ["A", "B", "C"]},
+]
+
+
 def run_shard(col, cfg):
     with ApiHarness() as h:
         keys = discover(h)
@@ -500,7 +510,6 @@ def run_shard(col, cfg):
         col.extra["role_combinations_per_route"] = "%d" % (len(sets) ** 2)
 
         def body(content):
-            # the first content every shard sees is the richest one (active run, archive, string tag); the rest is drawn
             for key, req, usr in mine:
                 if col.expired():
                     return
@@ -511,11 +520,10 @@ def run_shard(col, cfg):
                         classes.append("content:" + name)
                 col.record(case, nontrivial, classes=classes, violations=vs)
 
-        body({"k": 7, "n_lines": 2, "n_errors": 1, "n_runlog": 2, "run": True, "running": True, "archive": True, "str_tag": True,
-              "other": None})
-        extra = int(cfg["contents_per_shard"]) - 1
-        if extra > 0:
-            hyp_run(contents(), body, extra, shard_seed(col.seed, col.shard), col)
+        for content in FIXED_CONTENTS[:int(cfg["fixed_contents"])]:
+            body(content)
+        if int(cfg["drawn_contents"]) > 0:
+            hyp_run(contents(), body, int(cfg["drawn_contents"]), shard_seed(col.seed, col.shard), col)
 
 
 def shrink_hints(case):
